@@ -45,21 +45,26 @@ ASSUMPTIONS = [
     "time traces and wall-clock fields are not compared",
 ]
 BOUNDS = {
-    "quick": "sampler: shapes (2,2) all 16 zero patterns and (2,3) 8 pattern classes, dense and sparse holder (two "
-             "stored orders); uniform n=0..cells+2; nonzeros/zeros with and without replacement 0..avail+2; "
-             "stratified/semistrat (nn, nz) on the cross {0,1,nnz+1} x 0..zeros+2 and 0..nnz+2 x {0,1} ((2,2)) resp. "
-             "a 3x3 grid ((2,3)); GCPSampler every valid (function, gradient) sampler pair x count forms {default, "
-             "int, StratifiedCount}, Poisson counts 0..2; boundary draw u=0.0 on (2,2). solver: {SGD,Adam,Adagrad} x "
-             "rate {1e-3,1e-1,10} x decay {.1,1} x max_fails 0..2 x max_iters 0..4 x epoch_iters {1,2} x {Gaussian,"
-             "Poisson} x 3 data members, rank 2, + f_est_tol and gcp_opt-driver slices. lbfgsb: maxiter {0,1,2,5,40} x "
-             "2 losses x 3 data x rank {1,2} x mask {none, one hole} x {solve, gcp_opt}. reuse: 5 optimizer kinds x 2 "
-             "configurations x {scripted, seeded real} sampler x all 84 words of length <= 3 over 4 problems (two "
-             "sizes, two ranks, two losses)",
-    "thorough": "sampler: (2,2) and (2,3) all patterns (64) and (2,2,2) 8 classes; full (nn, nz) grids 0..nnz+2 x "
-                "0..zeros+2 for (2,2); Poisson counts 0..3; boundary draws on (2,2) and (2,3). solver: rate {1e-3,"
-                "1e-2,1e-1,1,10} x decay {.1,.5,1} x max_fails 0..3 x max_iters 0..6 x epoch_iters {1,2,3} x rank "
-                "{1,2} x 5 data members. lbfgsb: maxiter {0,1,2,3,5,10,40,200}. reuse: 5 problems (155 words), 3 "
-                "configurations",
+    "quick": "sampler (~0.48 M scripted executions): shapes (2,2) all 16 zero patterns and (2,3) 8 pattern classes, "
+             "values = distinct signed odd integers; uniform on dense and sparse holder n=0..6; nonzeros / zeros with and "
+             "without replacement 0..available+2 (two stored orders for 2-3 nonzeros); stratified (nn, nz) on the cross "
+             "{0,1} x 0..zeros+2 and 0..nnz+2 x {0,1} ((2,2)) resp. {0,1,2}^2 ((2,3)); semistrat {0,1,2}^2; GCPSampler: "
+             "every valid function / gradient sampler choice {default, UNIFORM, STRATIFIED, SEMISTRATIFIED} x count "
+             "forms {default, int, StratifiedCount} on 6 ((2,2)) resp. 5 ((2,3)) patterns, Poisson stratum sizes 0..2; "
+             "scripts: complete for <= 5 ((2,3): 4) draws, <= 2 deviations from each of the 2+cells policies for <= 8 "
+             "((2,3): 6) draws, <= 1 deviation beyond; boundary draw u=0.0 on (2,2). solver (3 888 solves): {SGD,Adam,"
+             "Adagrad} x rate {1e-3,1e-1,10} x decay {.1,1} x max_fails 0..2 x max_iters 0..4 x epoch_iters {1,2} x "
+             "{Gaussian, Poisson} x 3 pool members, rank 2, + f_est_tol {0.98 F0, 0.5 F0} and gcp_opt-driver slices "
+             "(objective as tuple and as enum, dense and sparse data). lbfgsb (240 solves): maxiter {0,1,2,5,40} x 2 "
+             "losses x 3 members x rank {1,2} x mask {none, one hole} x {solve, gcp_opt}. reuse (1 344 words): 5 optimizer "
+             "kinds (LBFGSB with / without user callback) x 2 configurations x {scripted, seeded real} sampler x all 84 "
+             "words of length <= 3 over 4 problems (two sizes, two ranks, two losses)",
+    "thorough": "sampler (~4.5 M executions): (2,2) all patterns with the full (nn, nz) grid 0..nnz+2 x 0..zeros+2, (2,3) "
+                "all 64 patterns (GCPSampler lattice on 8 classes), (2,2,2) 8 classes; Poisson counts 0..3; scripts "
+                "complete for <= 5 draws ((2,2,2): 4), <= 2 deviations up to 12 / 8 / 6 draws; boundary draws on (2,2) "
+                "and (2,3). solver (77 220 solves): rate {1e-3,1e-2,1e-1,1,10} x decay {.1,.5,1} x max_fails 0..3 x "
+                "max_iters 0..6 x epoch_iters {1,2,3} x rank {1,2} x 5 pool members. lbfgsb: maxiter {0,1,2,3,5,10,40,"
+                "200}. reuse: 5 problems incl. sparse data (155 words), 3 configurations",
 }
 CHUNK = 1
 
@@ -254,6 +259,10 @@ def _pattern_classes(n):
     return space.patterns(n, complete_upto=0)
 
 
+# cells -> (complete enumeration up to this many cell/entry draws, <= 2 deviations up to this many draws, 1 beyond)
+EXPLORE = {"quick": {4: (5, 8), 6: (4, 6)}, "thorough": {4: (5, 12), 6: (5, 8), 8: (4, 6)}}
+
+
 def _sampler_cases(tier, seed):
     th = tier == "thorough"
     out = []
@@ -261,8 +270,8 @@ def _sampler_cases(tier, seed):
     def add(op, shape, pat, args, holder="sptensor", order="fwd", boundary=False):
         out.append({"check": "sampler", "op": op, "shape": list(shape), "pat": list(pat), "vseed": seed,
                     "holder": holder, "order": order, "args": args, "boundary": boundary,
-                    "pois_max": 3 if th else 2, "max_complete": 5 if (th or prod(shape) <= 4) else 4,
-                    "long_len": 16 if th else (8 if prod(shape) <= 4 else 6)})
+                    "pois_max": 3 if th else 2, "max_complete": EXPLORE[tier][prod(shape)][0],
+                    "long_len": EXPLORE[tier][prod(shape)][1]})
 
     shapes = [(2, 2), (2, 3)] + ([(2, 2, 2)] if th else [])
     for shape in shapes:
@@ -296,10 +305,11 @@ def _sampler_cases(tier, seed):
             elif small:
                 grid = sorted({(a, b) for a in (0, 1) for b in range(0, nzr + 3)}
                               | {(a, b) for a in range(0, nnz + 3) for b in (0, 1)})
+            elif not th:
+                grid = [(a, b) for a in (0, 1, 2) for b in (0, 1, 2)]
             else:
-                g = sorted({0, 1, 2}) if not th else sorted({0, 1, 2, nnz, nnz + 1})
-                gz = sorted({0, 1, 2}) if not th else sorted({0, 1, 2, nzr, nzr + 1})
-                grid = [(a, b) for a in g for b in gz]
+                grid = sorted({(1, b) for b in (0, 1, 2, nzr, nzr + 1)} | {(a, 1) for a in (0, 2, nnz, nnz + 1)}
+                              | {(0, 0), (2, 2)})
             for (a, b) in grid:
                 for order in (orders if th else orders[:1]):
                     add("stratified", shape, pat, {"nn": a, "nz": b}, order=order)
@@ -307,8 +317,10 @@ def _sampler_cases(tier, seed):
             for (a, b) in sgrid:
                 add("semistrat", shape, pat, {"nn": a, "nz": b})
             # GCPSampler: configuration lattice
-            if not th and pat not in ((pats[0], pats[1], pats[3], pats[-2], pats[-1]) if not small else
-                                      (pats[0], pats[2], pats[5], pats[10], pats[12], pats[15])):
+            cls = _pattern_classes(n)
+            if small and not th and pat not in (pats[0], pats[2], pats[5], pats[10], pats[12], pats[15]):
+                continue
+            if not small and pat not in ((cls[0], cls[1], cls[3], cls[-2], cls[-1]) if not th or n > 6 else cls):
                 continue
             cnt_forms = [None, 1, 2, [1, 2], [2, 0]] if small else [None, 2, [1, 2]]
             ucnt_forms = [None, 1, 3] if small else [None, 2]
@@ -527,15 +539,16 @@ def _resolve(case, A, log):
     nnz = int(np.count_nonzero(A))
     nzr = size - nnz
     ncells = size
-    cell_draws = [c for (k, _, c) in log if k == "cell"]
-    lin = {sub: l for l, sub in enumerate(rm.cells(A.shape))}
+    # a boundary draw (first coordinate exactly 0.0, the others inside index 0) lies in cell 0
+    cell_draws = [0 if c == ncells else c for (k, _, c) in log if k == "cell"]
     Af = [A[sub] for sub in rm.cells(A.shape)]
-    zero_hits = [c for c in cell_draws if c < ncells and Af[c] == 0]
-    del lin
-    r = {"may_raise": False, "must_raise": False, "crng": None, "blocks": None, "kind": "triple"}
+    zero_hits = [c for c in cell_draws if Af[c] == 0]
+    r = {"may_raise": False, "must_raise": False, "crng": None, "blocks": None, "kind": "triple",
+         "req_nz": None, "zero_hits": len(zero_hits)}
 
     def strat_blocks(nn, nz, repl=True):
         got_z = min(nz, len(zero_hits) if repl else len(set(zero_hits)))
+        r["req_nz"] = nz
         return [("nonzero", nn, nnz), ("zero", got_z, nzr)]
 
     if op == "uniform":
@@ -619,6 +632,7 @@ def _check_sample(case, out, log, A):
         variant += ":" + str(a["fs"] if a["which"] == "function" else a["gs"])
     fails = []
     r = _resolve(case, A, log)
+    _check_sample.last = r
     if isinstance(out, Exception):
         if (r["may_raise"] or r["must_raise"]) and isinstance(out, ValueError):
             return fails, "rejected"
@@ -760,7 +774,9 @@ def _run_sampler(case, ctx):
             if digest(_observation(out, log)) != digest(_observation(out2, log2)):
                 ctx.fail("harness", "nondeterministic_replay", f"script {script}", case=dict(case, script=list(script)))
                 continue
-            sub = dict(case, script=list(script))
+            # derived fields (for known-finding predicates): zeros requested / draws that hit a true zero
+            sub = dict(case, script=list(script), req_nz=_check_sample.last["req_nz"],
+                       zero_hits=_check_sample.last["zero_hits"])
             for (op, sym, detail, variant) in fails:
                 ctx.fail(op, sym, detail, variant=variant, case=sub)
     if nontriv:
